@@ -1,11 +1,11 @@
 //@ unit: counts_catch
 //@ target: src/catch/attributes.rs
-//@ assume: counts <= 2^31 (no u32 overflow of the counters; check_suspicion bounds object counts far below)
+//@ assume: counts <= 2^30 (no u32 overflow of the counters; check_suspicion bounds object counts far below)
 use super::*;
 
 fn any_regular() -> (ObjectCountBuilder, u32, u32, u32, usize) {
     let (f, d, t): (u32, u32, u32) = (kani::any(), kani::any(), kani::any());
-    kani::assume(f <= 1 << 31 && d <= 1 << 31 && t <= 1 << 31);
+    kani::assume(f <= 1 << 30 && d <= 1 << 30 && t <= 1 << 30);
     let take: usize = kani::any();
     (ObjectCountBuilder::Regular { count: ObjectCount { fruits: f, droplets: d, tiny_droplets: t }, take }, f, d, t, take)
 }
@@ -19,7 +19,7 @@ fn parts(b: &ObjectCountBuilder) -> (u32, u32, u32, usize) {
 
 //@ obl: id=U11.catch.record harness=u11_catch_record props=C14,C02 tier=quick kind=proof
 //@ fns: ObjectCountBuilder::record_fruit, ObjectCountBuilder::record_droplet, ObjectCountBuilder::record_tiny_droplets, ObjectCountBuilder::new_regular, ObjectCountBuilder::into_regular
-//@ bound: loop-free; all usize `take`, counters <= 2^31, tiny droplet increments <= 2^30
+//@ bound: loop-free; all usize `take`, counters <= 2^30, tiny droplet increments <= 2^30
 //@ clause: per call on the limited (one-shot) builder: record_fruit / record_droplet: take > 0 ==> take' = take - 1 and the respective counter + 1, everything else unchanged; take == 0 ==> nothing changes. record_tiny_droplets(n): take > 0 ==> tiny' = tiny + n, else unchanged; take never changes. new_regular(n) starts at zero counts with take = n. (The induction over the call sequence is Verus lemma U11.count_lemma.)
 #[kani::proof]
 fn u11_catch_record() {
@@ -60,7 +60,7 @@ fn u11_catch_record() {
 
 //@ obl: id=U11.catch.set_count harness=u11_catch_set_object_count props=C14 tier=quick kind=proof
 //@ fns: CatchDifficultyAttributes::set_object_count, CatchDifficultyAttributes::max_combo
-//@ bound: loop-free; all counter values <= 2^31
+//@ bound: loop-free; all counter values <= 2^30
 //@ clause: set_object_count copies fruits, droplets and tiny droplets into the attributes unchanged; max_combo() == fruits + droplets
 #[kani::proof]
 fn u11_catch_set_object_count() {
